@@ -1,5 +1,7 @@
 import Mathlib.Analysis.SpecialFunctions.Trigonometric.Deriv
 import Mathlib.Data.Fin.Rev
+import Mathlib.Topology.Instances.Matrix
+import Mathlib.Topology.Order.IntermediateValue
 import E3nnVerif.Theory.OneParam
 /-
 Closed forms and periodicity of the one-parameter groups that make up `wigner_D`.
@@ -10,6 +12,8 @@ Closed forms and periodicity of the one-parameter groups that make up `wigner_D`
   `± sin(mθ)` on the anti-diagonal (this is the structure `ToS2Grid`'s FFT relies on).
 * `adjoint_rotation`: from the two commutation relations `[Z,W] = V`, `[Z,V] = −W` alone,
   `exp(tZ) W = (cos t · W + sin t · V) exp(tZ)` for all `t` (an ODE-uniqueness argument).
+* `det_expM_smul_of_skew`: `det exp(tA) = 1` for skew `A` (±1 by orthogonality, continuity in `t`, value 1 at 0 —
+  Mathlib has no `det (exp A) = exp (tr A)`).
 * `expM_conj_quarter`: for a triple with `[X₀,X₁]=X₂` (cyclic), `exp(t X₀) = U⁻¹ exp(t X₁) U` with
   `U = exp((π/2) X₂)`; hence whatever period `exp(t X₁)` has, `exp(t X₀)` has too.
 -/
@@ -168,5 +172,39 @@ theorem expM_period_transfer (X0 X1 X2 : Matrix n n ℝ)
     (c1 : X1 * X2 - X2 * X1 = X0) (c2 : X2 * X0 - X0 * X2 = X1) (t T : ℝ)
     (hT : expM ((t + T) • X1) = expM (t • X1)) : expM ((t + T) • X0) = expM (t • X0) := by
   rw [expM_conj_quarter X0 X1 X2 c1 c2, hT, ← expM_conj_quarter X0 X1 X2 c1 c2]
+
+/-! ### 3. determinant -/
+
+theorem continuous_det_expM_smul (A : Matrix n n ℝ) : Continuous fun s : ℝ => (expM (s • A)).det := by
+  apply Continuous.matrix_det
+  apply continuous_matrix
+  intro i j
+  exact continuous_iff_continuousAt.mpr fun s => (hasDerivAt_expM_smul_entry A s i j).continuousAt
+
+/-- `det exp(tA) = 1` for skew `A`: it is `±1` by orthogonality, `1` at `t = 0`, and continuous in `t`. -/
+theorem det_expM_smul_of_skew (A : Matrix n n ℝ) (h : Aᵀ = -A) (t : ℝ) : (expM (t • A)).det = 1 := by
+  have hcont := continuous_det_expM_smul A
+  have hsq : ∀ s : ℝ, (expM (s • A)).det * (expM (s • A)).det = 1 := by
+    intro s
+    have := congrArg Matrix.det (exp_smul_orthogonal_of_skew A h s)
+    rwa [Matrix.det_mul, Matrix.det_transpose, Matrix.det_one] at this
+  by_contra hne
+  have hm1 : (expM (t • A)).det = -1 := by
+    rcases mul_self_eq_one_iff.mp (hsq t) with h1 | h1
+    · exact absurd h1 hne
+    · exact h1
+  have h0 : (expM ((0 : ℝ) • A)).det = 1 := by rw [expM_zero_smul, Matrix.det_one]
+  have hmem : (0 : ℝ) ∈ Set.uIcc ((fun s : ℝ => (expM (s • A)).det) 0) ((fun s : ℝ => (expM (s • A)).det) t) := by
+    simp only [h0, hm1, Set.mem_uIcc]
+    right; constructor <;> norm_num
+  obtain ⟨s, _, hs⟩ := intermediate_value_uIcc (hcont.continuousOn) hmem
+  have := hsq s
+  simp only at hs
+  rw [hs] at this
+  norm_num at this
+
+theorem det_eulerD_of_skew (Xx Xy : Matrix n n ℝ) (hx : Xxᵀ = -Xx) (hy : Xyᵀ = -Xy) (α β γ : ℝ) :
+    (eulerD Xx Xy α β γ).det = 1 := by
+  simp [eulerD, Matrix.det_mul, det_expM_smul_of_skew _ hx, det_expM_smul_of_skew _ hy]
 
 end E3nnVerif.Theory
